@@ -356,7 +356,8 @@ def run_c18(ctx):
             return "v1-range-proof-unbound"
         return None
     _row_check(ctx, "c18-replay", rows, "c18", classify=classify, need={"reveal:accept": 2, "in_range:accept": 5, "in_range:false": 10, "in_set:accept": 4, "in_set:false": 10, "not_in_set:accept": 10,
-                                                 "not_in_set:false": 4, "in_range:perturbed": 10, "in_set:perturbed": 5}, parts=14)
+                                                 "not_in_set:false": 4, "in_range:perturbed": 10, "in_set:perturbed": 5, "account_presentation:accept": 5, "account_presentation:perturbed": 20,
+                                                 "web3_presentation:accept": 5, "web3_presentation:perturbed": 20, "web3_presentation:false": 20}, parts=14)
     c = json.loads(json.dumps(next(x for x in rows if x["accept"] and x["stmt"][0]["k"] == "in_range")))
     c["accept"] = False
     c["truth"] = False
@@ -364,8 +365,10 @@ def run_c18(ctx):
     ctx.extra["canary"] = "flipped verdict of a true range statement flagged"
     ctx.rule = ("Statements.tla: attribute lists over 12 ordered values (length-then-lexicographic order of the field encoding), statements of one atom (reveal, range with every lower / upper "
                 "combination around the value, membership and non-membership in sets of 1..5 values) and of two atoms about different attributes, perturbations {challenge, credential, commitments, "
-                "statement, proof bytes, proof version}; both proof versions; distinct = distinct rows")
-    ctx.assumptions += ["verifiable presentations over web3 / identity credentials (web3id, v1 anchors) and the holder's linking signatures are not bound: only statements about account-credential commitments are",
+                "statement, proof bytes, proof version}; both proof versions; the same statements inside web3id presentations about an account credential and about a web3 credential with "
+                "perturbations {context, public data (commitments / issuer key), credential id / holder, statement, proof borrowed from another presentation, linking proof borrowed}; distinct = distinct rows")
+    ctx.assumptions += ["presentations are bound for account and web3 credentials of web3id (Request::prove_with_rng / Presentation::verify incl. issuer-signed commitments and linking signatures); the v1 presentation / anchor format and identity-credential presentations are not",
+                        "an account credential's id is not part of the proof (the verifier looks the commitments up by it): 'another credential id' is replayed as verification against that credential's commitments",
                         "commitments are built from the attribute values directly (the commitments of a deployed credential are the same Pedersen commitments)"]
 
 
